@@ -1,12 +1,12 @@
 SPECIFICATION TraceSpec
 CONSTANTS
-  Stages = 6
-  AccEvals = 0
+  Stages = 3
+  AccEvals = 1
   DenseEvals = 0
-  CountRule = "hairer"
-  HasHinit = TRUE
-  HasSmall = TRUE
-  StiffEvery = 1000
+  CountRule = "scipy"
+  HasHinit = FALSE
+  HasSmall = FALSE
+  StiffEvery = 0
   StiffLimit = 15
   NonStiffReset = 6
   Metric = FALSE
